@@ -6,6 +6,7 @@ import (
 	"os"
 	"os/exec"
 	"strings"
+	"time"
 
 	lib "github.com/corazawaf/libinjection-go"
 
@@ -35,8 +36,12 @@ var c05XSS = []string{"", "<script>", "</a", "</a ", "<a href=javascript:alert(1
 	"<script>alert(1)</script>"}
 
 // op encoding: "s:<text>" = IsSQLi, "x:<text>" = IsXSS
+var c05Long = []string{"x:<script>alert(1)</script>" + strings.Repeat("a", 70000), "x:" + strings.Repeat("a ", 35000) + "<a href=javascript:x>",
+	"s:1 union select 1 -- " + strings.Repeat("a", 70000), "s:" + strings.Repeat("a ", 35000)}
+
 func c05Ops() []string {
 	var ops []string
+	ops = append(ops, c05Long...)
 	for _, s := range c05SQL {
 		ops = append(ops, "s:"+s)
 	}
@@ -56,6 +61,14 @@ func runOp(op string) string {
 
 // C05Oneshot prints the result of one op in this (fresh) process.
 func C05Oneshot(hexops string) {
+	if strings.HasPrefix(hexops, "@") { // long operations are handed over in a file
+		b, err := os.ReadFile(hexops[1:])
+		if err != nil {
+			fmt.Fprintln(os.Stderr, err)
+			os.Exit(3)
+		}
+		hexops = strings.TrimSpace(string(b))
+	}
 	for _, h := range strings.Split(hexops, ",") {
 		b, _ := hex.DecodeString(h)
 		fmt.Println(runOp(string(b)))
@@ -71,10 +84,23 @@ func freshReference(ops []string) (map[string]string, error) {
 		return nil, err
 	}
 	ref := map[string]string{}
+	tmp, err := os.CreateTemp("", "vcheck-op-")
+	if err != nil {
+		return nil, err
+	}
+	defer os.Remove(tmp.Name())
+	tmp.Close()
 	for _, op := range ops {
-		out, err := exec.Command(self, "-oneshot", hex.EncodeToString([]byte(op))).Output()
+		arg := hex.EncodeToString([]byte(op))
+		if len(arg) > 4000 {
+			if err := os.WriteFile(tmp.Name(), []byte(arg), 0o600); err != nil {
+				return nil, err
+			}
+			arg = "@" + tmp.Name()
+		}
+		out, err := exec.Command(self, "-oneshot", arg).Output()
 		if err != nil {
-			return nil, fmt.Errorf("fresh-process reference for %q: %v", op, err)
+			return nil, fmt.Errorf("fresh-process reference for %s: %v", short(op), err)
 		}
 		ref[op] = strings.TrimSpace(string(out))
 	}
@@ -211,6 +237,58 @@ func runHist(w *fw.W) {
 	vrt.Restore()
 }
 
+// long linear histories: the operations cycled for several hundred calls on one process state
+// (counters that wrap, tables that fill up, generation numbers that repeat only show after many calls)
+func longHistoryOp(k int) string {
+	ops := c05Ops()[len(c05Long):] // the short operations
+	r := k / len(ops)
+	return ops[(k+7*r)%len(ops)]
+}
+
+func evalLongHistory(w *fw.W, op, aux string) {
+	var upto int
+	fmt.Sscanf(aux, "%d", &upto)
+	// replay mode re-runs the history from the initial state; in the run itself the state is carried
+	if w.Replay || upto == 0 {
+		vrt.Restore()
+		for k := 0; k < upto; k++ {
+			runOp(longHistoryOp(k))
+		}
+	}
+	got := runOp(op)
+	w.Traces(1)
+	if want := c05Ref[op]; got != want {
+		w.Fail("history-dependence", fmt.Sprintf("as call number %d of a linear history (operations cycled in a fixed order) the call %q returns %s; as the first call of a fresh process it returns %s", upto+1, op, got, want))
+	}
+	w.NonTrivial()
+}
+
+// pumped histories A . N^k . B: one operation, then k repetitions of a neutral one, then a probe.
+// k sits on the wrap boundaries of 8-bit counters / generation numbers (254..257).
+var pumpNeutral = []string{"s:1", "x:x", "s:1 2 3"}
+var pumpCounts = []int{254, 255, 256, 257}
+
+func evalPumped(w *fw.W, b, aux string) {
+	parts := strings.SplitN(aux, "\x00", 3)
+	var k int
+	fmt.Sscanf(parts[2], "%d", &k)
+	vrt.Restore()
+	runOp(parts[0])
+	for i := 0; i < k; i++ {
+		runOp(parts[1])
+	}
+	got := runOp(b)
+	w.Traces(1)
+	want, ok := c05Ref[b]
+	if !ok {
+		panic("harness: no reference for " + b)
+	}
+	if got != want {
+		w.Fail("history-dependence", fmt.Sprintf("after the history [%q, %q x %d] the call %q returns %s; as the first call of a fresh process it returns %s", parts[0], parts[1], k, b, got, want))
+	}
+	w.NonTrivial()
+}
+
 // ---------------------------------------------------------------------------------------------
 // E-SCHED
 
@@ -307,14 +385,27 @@ func exploreScenario(w *fw.W, threads [][]string, sc schedCfg, maxExec int) sche
 		}
 		return "", ""
 	}
-	stack := [][]int{nil}
+	// a pending branch shares the choice list of the execution it deviates from (materialised when
+	// popped): the stack stays O(points), not O(points^2)
+	type branch struct {
+		base []int
+		i    int
+		alt  int
+	}
+	stack := []branch{{nil, 0, -1}}
+	started := time.Now()
+	wallCap := time.Duration(w.Pick(15, 90)) * time.Second
 	for len(stack) > 0 {
-		if out.executions >= maxExec || w.Expired() {
+		if out.executions >= maxExec || w.Expired() || time.Since(started) > wallCap {
 			out.complete = false
 			break
 		}
-		prefix := stack[len(stack)-1]
+		br := stack[len(stack)-1]
 		stack = stack[:len(stack)-1]
+		var prefix []int
+		if br.alt >= 0 {
+			prefix = append(append(make([]int, 0, br.i+1), br.base[:br.i]...), br.alt)
+		}
 		x, results := runOnce(prefix)
 		out.executions++
 		out.points += len(x.Points)
@@ -343,8 +434,7 @@ func exploreScenario(w *fw.W, threads [][]string, sc schedCfg, maxExec int) sche
 					if c > sc.bound {
 						continue
 					}
-					np := append(append([]int{}, x.Choices[:i]...), alt)
-					stack = append(stack, np)
+					stack = append(stack, branch{x.Choices, i, alt})
 				}
 			}
 			if p.Choice != 0 && p.RunningStillEnabled {
@@ -449,9 +539,51 @@ func init() {
 		},
 		Aux: racePass,
 		Phases: []fw.Phase{
-			{Name: "history-closure", Space: "BFS over package states x 68 operations, history depth <=3 (quick) / <=4 (thorough), state cap 400 / 4000", Share: 2, Serial: true,
+			{Name: "history-closure", Space: "BFS over package states x 72 operations, history depth <=3 (quick) / <=4 (thorough), state cap 400 / 4000", Share: 2, Serial: true,
 				Run: runHist, Eval: evalHist},
-			{Name: "schedules-2-threads", Space: "91 unordered pairs of the 13-input collision set x 4 scheduler configs (thorough: 6): all interleavings within the preemption bound", Share: 5,
+			{Name: "long-history", Space: "one linear history of 700 (quick) / 6000 (thorough) calls cycling the 68 short operations in a rotating order; every result compared with the fresh-process reference", Share: 1, Serial: true,
+				Run: func(w *fw.W) {
+					n := w.Pick(700, 6000)
+					for k := 0; k < n && !w.Expired(); k++ {
+						w.Item(longHistoryOp(k), fmt.Sprint(k))
+					}
+					w.Finish()
+					vrt.Restore()
+				}, Eval: evalLongHistory},
+			{Name: "pumped-histories", Space: "histories A . N^k . B for every ordered pair (A,B) of the short operations of the same detector, 3 neutral operations N, k in {254,255,256,257} (8-bit wrap boundaries); quick: k in {255,256} and N = the numeric / plain-text one", Share: 3,
+				Run: func(w *fw.W) {
+					ops := c05Ops()[len(c05Long):]
+					type job struct {
+						a, b, n string
+						k       int
+					}
+					var jobs []job
+					ks, ns := pumpCounts, pumpNeutral
+					if !w.Thorough() {
+						ks, ns = []int{255, 256}, pumpNeutral[:2]
+					}
+					for _, a := range ops {
+						for _, b := range ops {
+							if a[0] != b[0] || a == b {
+								continue
+							}
+							for _, n := range ns {
+								if n[0] != a[0] {
+									continue
+								}
+								for _, k := range ks {
+									jobs = append(jobs, job{a, b, n, k})
+								}
+							}
+						}
+					}
+					w.Each(len(jobs), func(i int) {
+						j := jobs[i]
+						w.Item(j.b, j.a+"\x00"+j.n+"\x00"+fmt.Sprint(j.k))
+					})
+					vrt.Restore()
+				}, Eval: evalPumped},
+			{Name: "schedules-2-threads", LongEval: true, Space: "91 unordered pairs of the 13-input collision set x 4 scheduler configs (thorough: 6): all interleavings within the preemption bound", Share: 5,
 				Run: func(w *fw.W) {
 					var items [][2]string
 					for name := range schedConfigs(w.Thorough()) {
@@ -464,7 +596,7 @@ func init() {
 					sortPairs(items)
 					w.Each(len(items), func(i int) { w.Item(items[i][0], items[i][1]) })
 				}, Eval: evalSched},
-			{Name: "schedules-2x2-calls", Space: "2 threads x 2 calls each over a 6-input subset (history inside a thread + interleaving), sync+written-vars/b2 and function-entries/b1", Share: 2,
+			{Name: "schedules-2x2-calls", LongEval: true, Space: "2 threads x 2 calls each over a 6-input subset (history inside a thread + interleaving), sync+written-vars/b2 and function-entries/b1", Share: 2,
 				Run: func(w *fw.W) {
 					sub := []string{c05Collide[0], c05Collide[1], c05Collide[3], c05Collide[7], c05Collide[8], c05Collide[10]}
 					var items [][2]string
@@ -477,7 +609,7 @@ func init() {
 					}
 					w.Each(len(items), func(i int) { w.Item(items[i][0], items[i][1]) })
 				}, Eval: evalSched},
-			{Name: "schedules-3-threads", Space: "3 threads x 1 call over a 6-input subset, sync+written-vars/b2 and function-entries/b1", Share: 3, ThoroughOnly: true,
+			{Name: "schedules-3-threads", LongEval: true, Space: "3 threads x 1 call over a 6-input subset, sync+written-vars/b2 and function-entries/b1", Share: 3, ThoroughOnly: true,
 				Run: func(w *fw.W) {
 					sub := []string{c05Collide[0], c05Collide[1], c05Collide[3], c05Collide[7], c05Collide[8], c05Collide[10]}
 					var items [][2]string
